@@ -181,3 +181,30 @@ pub fn tracker_two_requests() {
     kani::cover!(r2_done, "second request completed");
 }
 }
+
+queue_harness! {
+// @check C04 quick timeout=900 mem=14
+// @encodes sink::background::WakerTracker::{handle_waiting_wakers, will_progress_on_drained_queue}
+// @bounds no flush request is ever sent; 3 writer iterations with arbitrary producer bursts and drain results
+// @oracle the stream is never flushed on behalf of a request and will_progress_on_drained_queue() stays false: an idle tracker never keeps the writer thread spinning
+// @stubs mpsc::Receiver::try_recv (model queue), tracing x4, Instant::now, alloc::fmt::format, Parker::park_deadline, Unparker::unpark
+#[kani::unwind(4)]
+pub fn tracker_without_requests_stays_idle() {
+    const CAP: usize = 2;
+    let mut t = hooks::Tracker::new();
+    let mut g: Ghost<CAP> = Ghost { pushed: 0, popped: 0, displaced: 0, flushed_upto: 0, flushes: 0 };
+    let mut i = 0;
+    while i < 3 {
+        g.produce();
+        let (drained, n) = g.drain();
+        let mut flushed = false;
+        t.handle_waiting_wakers(|| CAP, || flushed = true, drained, n);
+        assert!(!flushed, "no request, no flush on behalf of one");
+        assert!(!t.will_progress_on_drained_queue(), "nothing pending: the writer may park");
+        assert!(t.waiting() == 0 && t.entries_before_wake() == 0);
+        i += 1;
+    }
+    kani::cover!(g.popped >= 3, "entries were processed");
+    core::mem::forget(t);
+}
+}
